@@ -6,8 +6,21 @@
    every n_chains and 0 <= chain_index < n_chains, b >= 0, t >= 1 and n >= 0 (the property asks n >= 1). *)
 From Coq Require Import ZArith List.
 From Batchie Require Import Lib.Sexp Model.Sampling Proofs.C17Sampling.
+From Batchie Require Import Generated.SrcSampling Proofs.C17Source.
 Import ListNotations.
 Open Scope Z_scope.
+
+(* The model is what the source says NOW: `src_sample` is the whole function batchie.sampling.sample of /repo's
+   current working tree, re-translated statement by statement on every run (harness/py2gal.py ->
+   Generated/SrcSampling.v: the match on the model class, the four None checks, the seed-sequence / generator
+   construction, the burn-in loop, the thinning loop with its `(step_index + 1) % thin == 0` test, the VI
+   branch); started with no call issued yet, it equals the hand-written model for ALL arguments, so every
+   theorem below is a theorem about the translated source. *)
+Theorem C17_model_is_source : forall kind seed n_chains chain_index n_burnin thin n_thetas len0 returned,
+  src_sample kind seed n_chains chain_index n_burnin thin n_thetas ([], len0) returned
+  = sample kind seed n_chains chain_index n_burnin thin n_thetas len0 returned.
+Proof. exact src_sample_is_model. Qed.
+Print Assumptions C17_model_is_source.
 
 (* the whole trace in closed form: reset, set-rng with key (seed, [chain_index]), b steps, then n times
    (t steps, one record); the holder, empty on entry, ends with n entries *)
